@@ -72,7 +72,7 @@ fn search_c01() {
             if let Ok(o) = s.offset(1) { if let Ok(r) = o.get_atomic_ref::<std::sync::atomic::AtomicU32>(a) { let p = r as *const _ as usize; if p % 4 != 0 { bad = Some(format!("offset(1).get_atomic_ref::<AtomicU32>({a}) is misaligned")); } } }
             bad
         }));
-        match r { Ok(Some(m)) => report("C01", m, &mut found), Ok(None) => {}, Err(_) => report("C07", format!("panic in slice accessors with ({a},{b})"), &mut found) }
+        match r { Ok(Some(m)) => report("C01", m, &mut found), Ok(None) => {}, Err(_) => report("C07,C01", format!("panic (e.g. rustc's misaligned-pointer check, overflow) inside the slice accessors with arguments ({a},{b}) on a {LEN}-byte slice at host address {base:#x}"), &mut found) }
         // nothing outside the parent may have been written
         for (i, x) in buf.iter().enumerate() { if (i < OFF || i >= OFF + LEN) && *x != 0x5A { report("C01", format!("byte {i} outside the parent was modified (round {round})"), &mut found); break; } }
     }
@@ -286,7 +286,7 @@ fn search_c10() {
                 }
             }
             let got: Vec<(u64, usize)> = gm.iter().map(|r| (r.start_addr().0, r.len() as usize)).collect();
-            if got != model { report("C10", format!("map is {got:x?}, expected {model:x?} (sorted, disjoint, old set +/- one region)"), &mut found); break; }
+            if got != model { report("C10,C02", format!("map is {got:x?}, expected {model:x?} (sorted, disjoint, old set +/- one region); lookups by binary search are no longer valid"), &mut found); break; }
             for (s, n) in &model { if gm.find_region(GuestAddress(*s + *n as u64 - 1)).map(|r| r.start_addr().0) != Some(*s) { report("C02", format!("address {:#x} no longer resolves to its region in {model:x?}", s + *n as u64 - 1), &mut found); } }
         }
     }
